@@ -20,7 +20,7 @@ pub fn def() -> CheckDef {
         info: CheckInfo {
             id: "C02",
             level: "exploration",
-            rule: "one seeded run = one history of 3-8 (thorough: up to 20) steps over {edit burst, backup(options), backup killed before storage operation k, delete(subset, dry-run or real, break-lock), gc}; after every archive-changing step every version the model holds as complete is restored and compared with the snapshot taken when it was made, and 'latest' must be the newest of them. Non-trivial: at least two complete versions with different snapshots coexisted; distinct = distinct (sequence of store state hashes).",
+            rule: "one seeded run = one history of 3-8 (thorough: up to 20) steps over {edit burst, backup(options), backup killed before storage operation k (every other seed: or after creating a file and before writing its content), delete(subset, dry-run or real, break-lock), gc}; after every archive-changing step every version the model holds as complete is restored and compared with the snapshot taken when it was made, and 'latest' must be the newest of them. Non-trivial: at least two complete versions with different snapshots coexisted; distinct = distinct (sequence of store state hashes).",
             assumptions: &[
                 "content edits always come with a new mtime or a new size (the property's precondition)",
                 "an interrupted version is one whose band directory exists without a tail; nothing is claimed about restoring it here",
@@ -58,7 +58,7 @@ pub fn generate(seed: u64, tier: Tier, check: &str) -> Scenario {
         min_steps: 3,
         max_steps: if tier.thorough() { 20 } else { 8 },
         interrupts: true,
-        crash_empty: check == "C13",
+        crash_empty: check == "C13" || seed % 2 == 0,
         deletes: true,
         thorough: tier.thorough(),
         small_blocks: r.chance(1, 3),
